@@ -395,6 +395,71 @@ func RunWorkload(seed int64, cfg WorkCfg, onPhase func(string)) *History {
 		wg.Wait()
 		giantHold.Store(false)
 		mode.Store("ok")
+		if !cfg.NoProfile {
+			// the same for the profile service: its INSERT is held while 360 uploads whose stored payload is 95 kB each
+			// (a pprof comment; the upload itself is gzip'd and small) are handed in, then two small ones one after the other; the block that goes out next holds more than 32 MiB of payloads and every row must still be its own.
+			if onPhase != nil {
+				onPhase("giant-profile-block")
+			}
+			mkP := func(pad int) *Item {
+				id := fmt.Sprintf("gp%d", atomic.AddInt64(&itemSeq, 1))
+				pc := gen.NewProfCase(r, gen.ProfOpts{ID: id, MaxTypes: 1, MaxStacks: 6, MaxDepth: 5, Funcs: 4, BaseSec: 1700000000, PadComment: pad})
+				it := &Item{Phase: "giant-profile-block", Kind: "profile", Prof: &pc, Single: true}
+				it.Req = gen.RenderProfile(r, pc, true, false)
+				return it
+			}
+			profCalls := func() int {
+				n := 0
+				for _, sc := range w.SvcCalls() {
+					if sc.Kind == "profiles" {
+						n++
+					}
+				}
+				return n
+			}
+			p0 := mkP(0)
+			failTable.Store("profiles_input")
+			giantRelease.Store(false)
+			giantHold.Store(true)
+			atomic.StoreInt32(&slowLeft, 1)
+			mode.Store("slow-n")
+			var pw sync.WaitGroup
+			pw.Add(1)
+			go func() { defer pw.Done(); send(0, p0) }()
+			dl := time.Now().Add(5 * time.Second)
+			for led.InFlight() == 0 && time.Now().Before(dl) {
+				time.Sleep(time.Millisecond)
+			}
+			// an upload may not exceed 100 000 bytes uncompressed, so the 32 MiB take 360 of them
+			const bigs, smalls = 360, 2
+			seen := profCalls()
+			var answered atomic.Int32
+			for j := 0; j < bigs; j++ {
+				it := mkP(95000)
+				pw.Add(1)
+				go func(j int) { defer pw.Done(); send(1+j%7, it); answered.Add(1) }(j)
+			}
+			dl = time.Now().Add(60 * time.Second)
+			for profCalls()-seen+int(answered.Load()) < bigs && time.Now().Before(dl) {
+				time.Sleep(2 * time.Millisecond)
+			}
+			for j := 0; j < smalls; j++ {
+				it := mkP(0)
+				seen := profCalls()
+				var done atomic.Bool
+				pw.Add(1)
+				go func(j int) { defer pw.Done(); send(1+j%7, it); done.Store(true) }(j)
+				// the next one is sent once this one was handed to the service (or answered before it got there)
+				dl := time.Now().Add(10 * time.Second)
+				for profCalls() == seen && !done.Load() && time.Now().Before(dl) {
+					time.Sleep(time.Millisecond)
+				}
+			}
+			giantRelease.Store(true)
+			pw.Wait()
+			giantHold.Store(false)
+			mode.Store("ok")
+		}
 	}
 	if cfg.Targeted {
 		// a body of several MiB (one parser portion per stream, four or five of them): the INSERTs carrying a line of
